@@ -99,17 +99,18 @@ impl Boudot2000RangeProof {
     where
         H: Digest,
     {
+        // the challenge is a full hash output (2t bits, not t): the blindings must mask challenge * secret
         let omega = rand_int(
             Integer::from(1),
-            Integer::from(2).pow(l + t) * b - Integer::from(1),
+            Integer::from(2).pow(l + 2 * t) * b - Integer::from(1),
         );
         let mu_1 = rand_int(
             Integer::from(1),
-            Integer::from(2).pow(l + t + s1) * n - Integer::from(1),
+            Integer::from(2).pow(l + 2 * t + s1) * n - Integer::from(1),
         );
         let mu_2 = rand_int(
             Integer::from(1),
-            Integer::from(2).pow(l + t + s2) * n - Integer::from(1),
+            Integer::from(2).pow(l + 2 * t + s2) * n - Integer::from(1),
         );
         let w_1 = (Integer::from(g_1.pow_mod_ref(&omega, n).unwrap())
             * Integer::from(h_1.pow_mod_ref(&mu_1, n).unwrap()))
@@ -407,10 +408,12 @@ impl Boudot2000RangeProof {
             * Integer::from(h.pow_mod_ref(&r_b_2, n).unwrap()))
             % n;
 
+        // bound of the square roots x_a_1, x_b_1 (the secrets of the proofs of square)
+        let b_1 = (Integer::from(2).pow(T) * Integer::from(b - a)).sqrt() + Integer::from(1);
         let proof_of_square_a =
-            Self::proof_of_square::<H>(&x_a_1, &r_a_1, g, h, &E_a_1, l, t, b, s, s1, s2, n);
+            Self::proof_of_square::<H>(&x_a_1, &r_a_1, g, h, &E_a_1, l, t, &b_1, s, s1, s2, n);
         let proof_of_square_b =
-            Self::proof_of_square::<H>(&x_b_1, &r_b_1, g, h, &E_b_1, l, t, b, s, s1, s2, n);
+            Self::proof_of_square::<H>(&x_b_1, &r_b_1, g, h, &E_b_1, l, t, &b_1, s, s1, s2, n);
         let proof_large_i_a =
             Self::proof_large_interval_specific::<H>(&x_a_2, &r_a_2, g, h, t, l, &b_2, s, n, T);
         let proof_large_i_b =
